@@ -6,6 +6,14 @@ props = [json.loads(l)["id"] for l in open(os.path.join(ROOT, "properties.jsonl"
 
 # id -> (level category, technique, level text, level note, design ref)
 CLAIMED = {
+ "C12": ("exploration", "proptest-driven model-based testing of operation histories against std HashMap, with controlled-hash keys and fail-at-n allocation fault sweeps",
+         "Random histories (<=200 ops) over keys whose hash bytes the generator chooses (collision groups for every capacity of the growth sequence, wrap-around homes, equal-hash twins, the reserved hash 0), compared with std::collections::HashMap after every operation including full get/contains/iter of every key ever used, a per-instance drop ledger and an allocator ledger; one third of the cases re-run the history once per allocation index with that allocation failing (exhaustive over the single failure points of that history). Search, not proof.",
+         "Trusts std HashMap as reference and the 32-bit FNV/home formulas only for *choosing* keys (a wrong formula weakens coverage labels, not soundness). Clone is exempt from failure injection.",
+         "DESIGN.md section 4, C12"),
+ "C13": ("exploration", "proptest-driven model-based testing of operation histories against std HashMap<u32,_>, handles constructed by home slot, isolated-process watchdog for termination",
+         "Random histories (<=200 ops, mixed and single insertion path) over non-zero handles constructed from their home slot (multiplier inverse mod 2^32), initial capacities None and 0..=70, both allocators; compared with std HashMap after every op (results, len, get/contains of every handle used, iter each-once, drop ledger, allocator ledger). Each worker is a separate process; a case that stops making progress is re-run twice in isolation and reported as a violation (the property states termination).",
+         "Trusts std HashMap as reference; Index on an absent handle is expected to panic (documented assert).",
+         "DESIGN.md section 4, C13"),
  "C14": ("exploration", "proptest-driven model-based testing of operation histories against a Vec reference model",
          "Random search over (capacity, history) pairs with a Vec-based bounded-stack model compared after every operation (result, length, full contents, drop ledger); capacities 1..40 with 1-4 over-represented; no proof of absence.",
          "Trusts the reference model (40 lines) and that clear_until is only called with h <= len; push with exactly one free slot may go either way.",
